@@ -167,8 +167,12 @@ func check07One(c Case07, scheme string, r *core.Rec) {
 		r.Failf("%s: Hostname() %q, the standard gives %q (ends in a number: %v)", where, got, want, number)
 		return
 	}
-	// (i) recognition, independent of the model's checker
-	if ok {
+	// (i) recognition, independent of the model's checker. The standard decides "ends in a number" on
+	// the result of domain-to-ASCII; for a pure-ASCII decoded host without ACE label that result is the
+	// lowercased decoded text itself, so only there can the decision be made without any IDNA mapping
+	// (escapes may spell non-ASCII such as %C2%B2, which the mapping turns into a digit).
+	plain := isPureASCII(decoded) && !spec.HasACELabel(decoded) && decoded != ""
+	if plain && ok {
 		if number && !isDottedDecimal(got) {
 			r.Failf("%s: the host ends in a number but was not turned into an address: %q", where, got)
 			return
@@ -181,7 +185,7 @@ func check07One(c Case07, scheme string, r *core.Rec) {
 			r.Failf("%s: the host does not end in a number but was changed to %q (expected its lowercased decoded form %q)", where, got, decoded)
 			return
 		}
-	} else if !number && !strings.ContainsAny(decoded, "%") {
+	} else if plain && !number && strings.IndexFunc(decoded, spec.IsForbiddenDomainCP) < 0 {
 		r.Failf("%s: the host does not end in a number and contains no forbidden code point but was rejected (%s)", where, note)
 		return
 	}
